@@ -8,7 +8,7 @@ RULE = ('cases = (a) net-flux matrices from tpt.net_fluxes on seeded reversible 
         '(c) arbitrary weighted digraphs with cycles, dead ends, parallel '
         'routes and graphs without any route; n 3-9 with exhaustive '
         'simple-path enumeration, up to 40 without; both removal schemes, '
-        'num_paths 1..inf, flux_cutoff 0.3..1; the residual matrix of every '
+        'num_paths 1..inf, flux_cutoff 0.3..1; matrices scaled by 2^-60..2^20; the residual matrix of every '
         'iteration is captured; non-trivial = run returning >=2 paths on a '
         'graph with >=2 distinct source-sink routes; distinct by (matrix '
         'hash, sources, sinks, scheme, limits)')
@@ -124,10 +124,16 @@ def run_case(ctx, kind_, rng, idx):
     from vf.monitor import Frozen
     kind, NF, src, snk, conserved = gen_graph(rng)
     n = len(NF)
+    # pathways are scale-equivariant: rare-event fluxes are tiny numbers
+    scale = 1.0
+    if rng.random() < 0.5:
+        scale = float(2.0 ** int(rng.integers(-60, 20)))
+        NF = NF * scale
     scheme = ['subtract', 'bottleneck'][int(rng.integers(0, 2))]
     num_paths = [np.inf, 1, 2, 3, 5][int(rng.integers(0, 5))]
     cutoff = [1 - 1e-10, 0.9, 0.6, 0.3][int(rng.integers(0, 4))]
     desc = {'graph': kind, 'n': n, 'sources': src, 'sinks': snk,
+            'scale': scale,
             'scheme': scheme, 'num_paths': repr(num_paths), 'cutoff': cutoff,
             'net_flux': NF if n <= 7 else 'elided'}
     ctx.describe(desc)
@@ -179,7 +185,7 @@ def run_case(ctx, kind_, rng, idx):
             ctx.violation('paths.edge-without-flux', tagp + ' uses an edge '
                           'with residual flux %s' % edges.min())
             return
-        if abs(edges.min() - f_) > 1e-12 * max(1.0, abs(f_)):
+        if abs(edges.min() - f_) > 1e-12 * abs(f_):
             ctx.violation('paths.flux-not-bottleneck',
                           tagp + ': smallest edge flux is %.12g' % edges.min())
             return
@@ -188,12 +194,12 @@ def run_case(ctx, kind_, rng, idx):
             ctx.count('exhaustive_comparisons')
             if i == 0:
                 routes_first = routes
-            if f_ < best - 1e-12 * max(1.0, abs(best)):
+            if f_ < best - 1e-12 * abs(best):
                 ctx.violation('paths.not-widest',
                               tagp + ': a path with bottleneck %.12g exists '
                               '(iteration %d, scheme %s)' % (best, i, scheme))
                 return
-        if i > 0 and f_ > fl[i - 1] + 1e-12 * max(1.0, fl[i - 1]):
+        if i > 0 and f_ > fl[i - 1] * (1 + 1e-12):
             ctx.violation('paths.flux-increased',
                           'flux %d %.12g > flux %d %.12g [%s]' % (
                               i, f_, i - 1, fl[i - 1], scheme))
@@ -205,7 +211,7 @@ def run_case(ctx, kind_, rng, idx):
         if routes > 0:
             ctx.violation('paths.missed', 'no path returned but %d routes '
                           'exist (best bottleneck %.6g)' % (routes, best))
-    if len(fl) and fl.sum() > total * (1 + 1e-9) + 1e-12:
+    if len(fl) and fl.sum() > total * (1 + 1e-9):
         ctx.violation('paths.over-explains[%s]' % scheme,
                       'sum of path fluxes %.12g exceeds total source outflow '
                       '%.12g (%d paths, scheme %s)' % (
